@@ -251,4 +251,12 @@ theorem C20_rejected_as_a_whole (v : String) (t x : Xml) (hx : x ∈ kids t ["Le
   repeat' split
   all_goals first | exact ⟨_, rfl⟩ | (simp only [throw, throwThe, MonadExcept.throw]; exact ⟨_, rfl⟩)
 
+/-! ### known finding F15: `scan_lexicons` reports the raw attribute text of the label -/
+
+/-- kernel-checked witness: the regular-expression scan returns `Tom &amp; Jerry` for a label that
+`load()` reports as `Tom & Jerry` (ids and versions agree) -/
+theorem C20_scan_label_entity_counterexample :
+    scanLexicons "<Lexicon id=\"a\" label=\"Tom &amp; Jerry\" version=\"1\">".toList =
+      some [{ id := "a", version := "1", label := some "Tom &amp; Jerry", ext := none }] := by decide +kernel
+
 end WnVerif.Props.C20
